@@ -7,7 +7,7 @@ from checks import sched_common as S
 
 ASSUMPTIONS = list(S.BASE_ASSUMPTIONS) + [
     "failed re-association: single allocation failures of the target pool's unit creation / unit map (fault enumeration)"]
-EXTRA_T1 = [('thread.c', 'ABT_thread_migrate'), ('thread.c', 'ABT_thread_migrate_to_pool'), ('thread.c', 'ABT_thread_migrate_to_sched'), ('thread.c', 'ABT_thread_migrate_to_xstream'), ('sched/sched.c', 'ABTI_sched_get_migration_pool'), ('thread.c', 'ABTI_thread_get_mig_data'), ('thread.c', 'ABTI_thread_set_associated_pool'),
+EXTRA_T1 = [('thread.c', 'ABT_thread_set_migratable'), ('thread.c', 'ABT_thread_migrate'), ('thread.c', 'ABT_thread_migrate_to_pool'), ('thread.c', 'ABT_thread_migrate_to_sched'), ('thread.c', 'ABT_thread_migrate_to_xstream'), ('sched/sched.c', 'ABTI_sched_get_migration_pool'), ('thread.c', 'ABTI_thread_get_mig_data'), ('thread.c', 'ABTI_thread_set_associated_pool'),
             ('thread.c', 'ABTI_thread_handle_request_migrate'), ('thread.c', 'ABT_thread_set_callback')]
 FI_SCENARIOS = ["as.mig_yield.bi.bi", "as.mig_yield.bi.ud", "as.mig_yield.bi.lg"]
 
@@ -30,14 +30,38 @@ def faulted_migration(res):
     res.add_cov(faulted_migration_runs=runs)
 
 
+def native_api(res):
+    """the documented request rules (harness/nat_migrate_api.c): rejections for the unit's own pool / any pool of the named
+    scheduler / the stream that serves its pool / non-migratable units, and accepted requests carried out with one callback"""
+    import subprocess
+    from vlib import common as C
+    exe = C.cc_harness("nat_migrate_api", ["nat_migrate_api.c"], "plain")
+    try:
+        p = subprocess.run([exe], stdout=subprocess.PIPE, stderr=subprocess.STDOUT, timeout=60)
+        rc, out = p.returncode, p.stdout.decode("utf-8", "replace")
+    except subprocess.TimeoutExpired:
+        rc, out = -999, "timeout"
+    res.add_cov(native_migration_rule_cases=9)
+    if rc != 0:
+        res.violation("migration request rules: " + (out.strip().split("\n")[0][:400] or "exit %s" % rc),
+                      {"native": "nat_migrate_api", "exit": rc, "output": out[-1500:]})
+
+
 def run(res, tier, broken):
     S.run_sched(res, tier, broken, "C13", EXTRA_T1)
     faulted_migration(res)
+    native_api(res)
 
 
 def replay(res, path):
     import json
     rep = json.load(open(path))
+    if rep.get("native") == "nat_migrate_api":
+        import subprocess
+        from vlib import common as C
+        p = subprocess.run([C.cc_harness("nat_migrate_api", ["nat_migrate_api.c"], "plain")], stdout=subprocess.PIPE, stderr=subprocess.STDOUT, timeout=60)
+        print(p.stdout.decode("utf-8", "replace")[-1500:])
+        return 1 if p.returncode != 0 else 0
     if "fi_scenario" in rep:
         from checks import c18
         r = c18.run_one(c18.build("plain"), rep["fi_scenario"], rep["k"])
